@@ -340,4 +340,37 @@ def run_helpers(pe, acc, case):
                 acc.fail('error_band', dict(case, idx=idx, pi=pi, scale=scale), 'error band %s != sqrt(g^T C g) %s' % (band, exp))
             else:
                 acc.ok(('band', tuple(idx), pi, scale), True, 'error_band-ok')
+    # the covariance of purely external inputs is J1 Sigma J2^T for the Sigma that was passed in - also after the caller has
+    # re-used (modified in place) the array it passed, and also in a second call
+    for dim in (2, 3):
+        S0 = np.array(alpha.cov_matrix(dim, True, 'c06alias'), dtype=float)
+        for form in ('ndarray', 'list'):
+            S = S0.copy() if form == 'ndarray' else [list(row) for row in S0]
+            cl = pe.cov_Obs([1.0 + i for i in range(dim)], S, 'cval%d%s' % (dim, form))
+            a, b = cl[0] * 2.0 + cl[dim - 1], cl[0] - 3.0 * cl[1]
+            J = np.zeros((2, dim))
+            J[0, 0], J[0, dim - 1] = J[0, 0] + 2.0, J[0, dim - 1] + 1.0
+            J[1, 0], J[1, 1] = J[1, 0] + 1.0, J[1, 1] - 3.0
+            exp = J @ S0 @ J.T
+            bad = None
+            for step in ('first call', 'second call', 'after the caller modified its array'):
+                if step.startswith('after'):
+                    if form == 'ndarray':
+                        S *= 4.0
+                        S[0, 1] = S[1, 0] = 0.0
+                    else:
+                        S[0][0] = 99.0
+                try:
+                    [x.gamma_method() for x in (a, b)]
+                    got = pe.covariance([a, b])
+                    if not np.allclose(got, exp, rtol=1e-12, atol=0):
+                        bad = '%s: covariance %s, J Sigma J^T = %s' % (step, got.tolist(), exp.tolist())
+                except Exception as e:
+                    bad = '%s: raised %s: %s' % (step, type(e).__name__, e)
+                if bad:
+                    break
+            if bad:
+                acc.fail('cov:external-input-aliasing', dict(case, dim=dim, form=form), 'covariance input of dimension %d given as %s: %s' % (dim, form, bad))
+            else:
+                acc.ok(('cov-alias', dim, form), True, 'external-input-history')
     acc.sample({'kind': 'helpers', 'sort_corr': 'all key orders of 1..4 keys x block sizes 1..3', 'error_band': '5 parameter lists x 3 analysis settings'})
